@@ -4,9 +4,10 @@ import re, datetime
 from fractions import Fraction
 from tools import common as C, wire, oracle as O
 
-LEAN_MODULES = ["SCP.C02", "SCP.Lex"]
+LEAN_MODULES = ["SCP.C02", "SCP.Lex", "SCP.C12Exec"]
 THEOREMS = ["SCP.C02." + t for t in "parse_eval post_stable line_eval_partial adjacent_add neg_value_rat pos_value_rat div_value_rat".split()] + \
-    ["SC.Spec.Sum.parseExpr_toks", "SC.Spec.Sum.exec_ast", "SCP.Lex.lex_render", "SCP.Lex.lex_spacing_irrelevant", "SCP.Lex.tree_line_eval", "SCP.Lex.comment_irrelevant"]
+    ["SC.Spec.Sum.parseExpr_toks", "SC.Spec.Sum.exec_ast", "SCP.Lex.lex_render", "SCP.Lex.lex_spacing_irrelevant", "SCP.Lex.tree_line_eval", "SCP.Lex.comment_irrelevant",
+     "SCP.C12Exec.codeLex_mono", "SCP.C12Exec.basicExecute_render", "SCP.C12Exec.lexLine_render"]
 RULE = ("random stratified expression trees (depth <= 12, literals: integers, fractions, attached signs, k/M/G/T/P/Z/Y suffixes, "
         "detached sign prefixes on literals and parentheses) rendered with random spacing (0-3 blanks per gap), adjacency sums, "
         "the same as right-hand side of an assignment; thorough: additionally ALL trees with <= 4 operators over a 3-literal pool x "
